@@ -11,11 +11,11 @@ PROPERTY = "C12"
 LEVEL = "exploration"
 EXHAUSTIVE = {"quick": True, "thorough": True}
 RULE = (
-    "operation alphabet (27): register(event in {a,b}, priority in {-1,0,5}, stops or not) = 12, dispatch(event in {a,b,c}) "
+    "operation alphabet (29): register(event in {a,b}, priority in {-1,0,5}, stops or not) = 12, dispatch(event in {a,b,c}) "
     "= 3, register a listener that itself registers another listener when called (event a/b) = 2, query(get_listeners(a), "
     "get_listeners(b), get_listeners()) = 3 (queries fill the dispatcher's sort cache, so they are part of the history), "
     "dispatch without an event object (a/b) = 2, register a listener that raises (its exception ends the dispatch and reaches the caller; the dispatcher must "
-    "work as before afterwards) = 1, register a bound method of an object nobody else refers to (plain / high priority and stopping) = 2, register a listener that registers another one at a higher priority than its own = 1, dispatch with an Event subclass that overrides stop_propagation / is_propagation_stopped with its own state = 1. Application part: listeners for the CONFIG, PRE_RESOLVE and PRE_HANDLE events registered through ApplicationConfig / DefaultApplicationConfig at several priorities, application built and run. Scale part: 1350 listeners on one event (1300 at one priority) and 60 dispatches in a row ending in a listener's exception. "
+    "work as before afterwards) = 1, register a bound method of an object nobody else refers to (plain / high priority and stopping) = 2, register a listener that registers another one at a higher priority than its own = 1, dispatch with an Event subclass that overrides stop_propagation / is_propagation_stopped with its own state = 1, register the first callable again for the other event at priority 5 / -1 = 2. Application part: listeners for the CONFIG, PRE_RESOLVE and PRE_HANDLE events registered through ApplicationConfig / DefaultApplicationConfig at several priorities, application built and run. Scale part: 1350 listeners on one event (1300 at one priority) and 60 dispatches in a row ending in a listener's exception. "
     "Every sequence up to length L is run from scratch on a new EventDispatcher: each dispatch's invocation log is compared "
     "with the model, and after the last step every query (has_listeners per event and overall, get_listeners per event and "
     "overall, get_listener_priority of every listener for every event) is compared. Random sequences of length 6-40 on top. "
@@ -23,8 +23,8 @@ RULE = (
     "dispatch/query of that event or a stopping listener; distinct by operation tuple."
 )
 BOUND = {
-    "quick": "all 551881 sequences of length <= 4 over 27 operations; 3000 random sequences of length 6-40",
-    "thorough": "all 14900788 sequences of length <= 5 over 27 operations; 400000 sampled of length 6; 100000 random of length 7-40",
+    "quick": "all 732541 sequences of length <= 4 over 29 operations; 3000 random sequences of length 6-40",
+    "thorough": "all 21243690 sequences of length <= 5 over 29 operations; 400000 sampled of length 6; 100000 random of length 7-40",
 }
 ASSUMPTIONS = [
     "whether a listener registered during a dispatch also joins the dispatch in progress is not stated and not asserted; it must take part in the next one",
@@ -47,6 +47,8 @@ OPS += [("dispatch-default", "a"), ("dispatch-default", "b"), ("reg-raises", "a"
 # a listener that, when called, registers another one for the same event at a HIGHER priority than its own;
 # a dispatch with an event object of a subclass that keeps its own 'stopped' state behind the two public methods
 OPS += [("reg-nested-high", "a"), ("dispatch-subclass", "a")]
+# the callable registered first is registered again for the OTHER event, at another priority
+OPS += [("reg-again", 5), ("reg-again", -1)]
 
 
 class DispatchBudgetExceeded(BaseException):
@@ -112,14 +114,14 @@ class Run(object):
         for m in self.ordered(ev):
             if m["id"] >= upto:
                 continue
-            out.append(m["id"])
+            out.append(m.get("calls_as", m["id"]))
             if m["stops"] or m.get("raises"):
                 break
         return out
 
     def expect_failure(self, ev, upto):
         calls = self.expected_calls(ev, upto)
-        return bool(calls) and bool(self.model[calls[-1]].get("raises"))
+        return bool(calls) and bool(self.model[calls[-1]].get("raises"))  # (a re-registered callable shares the behaviour of its first registration)
 
 
 def subclass_event(Event):
@@ -273,6 +275,15 @@ def execute(sh, Dispatcher, Event, ops, record):
             r.register(op[1], 0, False, nested=op[1])
         elif op[0] == "reg-nested-high":
             r.register(op[1], 0, False, nested=op[1], nested_priority=5)
+        elif op[0] == "reg-again":
+            if r.model and r.objs[0] is not None and not any(m.get("again") for m in r.model):
+                first = r.model[0]
+                other = "b" if first["event"] == "a" else "a"
+                lid = len(r.model)
+                r.objs[lid] = r.objs[0]
+                r.model.append(dict(id=lid, event=other, priority=op[1], seq=r.seq, stops=first["stops"], raises=first.get("raises"), again=True, calls_as=0))
+                r.seq += 1
+                r.d.add_listener(other, r.objs[0], op[1])
         elif op[0] == "reg-raises":
             r.register(op[1], 0, False, raises=True)
         elif op[0] == "reg-method":
@@ -354,7 +365,8 @@ def execute(sh, Dispatcher, Event, ops, record):
                 continue
             for ev in EVENTS:
                 p = r.d.get_listener_priority(ev, r.objs[m["id"]])
-                want = m["priority"] if ev == m["event"] else None
+                same = [x for x in r.model if r.objs[x["id"]] is r.objs[m["id"]] and x["event"] == ev]
+                want = same[0]["priority"] if same else None
                 if p != want:
                     sh.violate("query-priority", record, "get_listener_priority(%r, listener %d)=%r expected %r" % (ev, m["id"], p, want))
                     return interesting
